@@ -43,10 +43,15 @@ def skips_message(v, inp, x, ps, lib):
                 return True, "no terminator in the input: the unterminated tail is outside the statement"
     if is_empty_slice(v):
         return True, "continues with an empty slice"
+    start = None
     if v[0] == "index" and v[1] == inp:
         r = v[2]
         if r[0] == "struct" and r[1].endswith("RangeFrom"):
             start = dict(r[2]).get("start")
+    elif v[0] == "tproj" and v[2] == 1 and v[1][0] == "call" and v[1][1].endswith("::split_at") and len(v[1][2]) == 2 and v[1][2][0] == inp:
+        start = v[1][2][1]          # inp.split_at(p + 1).1
+    if start is not None:
+        if True:
             if start and start[0] == "bin" and start[1] == "Add":
                 a, b = start[2], start[3]
                 if b == ("lit", "int", 1) and is_newline_pos(a, inp, ps, lib):
